@@ -1378,6 +1378,7 @@ class Exec(object):
             return PyExcObj(cref.qual, args)
         qual = cref.qual + ".__init__"
         obj = SObj(cref)
+        obj.ghost["local"] = True            # created by the running operation: no other thread holds a reference yet
         init = self.lookup_method(obj, "__init__")
         if init is None:
             if args or kwargs:
